@@ -17,6 +17,9 @@ cd "$V"
 mkdir -p ocaml/_build
 if [ ! -x ocaml/_build/dsgm ] || [ coq/dsgm_model.ml -nt ocaml/_build/dsgm ] || [ -n "$(find ocaml -maxdepth 1 -name '*.ml' -newer ocaml/_build/dsgm)" ]; then
   cp coq/dsgm_model.ml coq/dsgm_model.mli ocaml/*.ml ocaml/_build/
-  (cd ocaml/_build && ocamlfind ocamlopt -O2 -w -a -package str dsgm_model.mli dsgm_model.ml sx.ml dispatch2.ml dsgm.ml -o dsgm 2>&1 | grep -v 'WARNING conda' || true)
-  [ -x ocaml/_build/dsgm ] || { echo "dsgm build failed"; exit 3; }
+  # link under another name and rename: a check that is running keeps the binary it started with
+  rm -f ocaml/_build/dsgm.new
+  (cd ocaml/_build && ocamlfind ocamlopt -O2 -w -a -package str dsgm_model.mli dsgm_model.ml sx.ml dispatch2.ml dsgm.ml -o dsgm.new 2>&1 | grep -v 'WARNING conda' || true)
+  [ -x ocaml/_build/dsgm.new ] || { echo "dsgm build failed"; exit 3; }
+  mv -f ocaml/_build/dsgm.new ocaml/_build/dsgm
 fi
